@@ -5,7 +5,7 @@ from pyvc.values import qforall
 from pyvc.values import (V, Int, Str, Bool, SeqV, NONE, ABSENT, TRUE, FALSE, truthy, clsof, keys_of,
                          mk_bool, mk_str, mk_int, mk_seq)
 from specs.ev import EV, EVX, EV3, EVX3, D, okD, okN
-from specs.strings import fmt, fmt_ok, wfp, is_literal, litval, walk, jsonlike
+from specs.strings import fmt, fmt_ok, wfp, is_literal, litval, walk, jsonlike, fmt_rend
 from specs.rules import lookup
 from specs.printer import pr
 from specs.wf import wf_tree, wf_eval, tree_axioms, eval_axioms, ctx_ok, http_ctx
@@ -184,7 +184,7 @@ def register(reg, stubs, world):
         holds = exists_idx(z3.Length(rs), lambda j: f_lower(V.s(rs[j])) == want, 'role')
         return [('bool', z3.Or(out.value == TRUE, out.value == FALSE)),
                 ('allows-iff-role-held-ignoring-case',
-                 (out.value == TRUE) == z3.And(fmt_ok(m, tm), roles != ABSENT, holds))]
+                 (out.value == TRUE) == z3.And(fmt_ok(m, tm), fmt_rend(m, tm), roles != ABSENT, holds))]
     reg.add(Contract('_checks:RoleCheck.__call__', pre=role_pre, post=role_post, defs=eval_defs, axioms=ev_axioms,
                      props=('C04', 'C14')))
 
@@ -243,14 +243,19 @@ def register(reg, stubs, world):
         tm = eng.map_of(st, t)
         rhs = fmt(m, tm)
         segs = f_split(k, z3.StringVal('.'))
-        from pyvc.values import pystr
+        from pyvc.values import pystr, str_ok
+        filled = z3.And(fmt_ok(m, tm), fmt_rend(m, tm))
+        lv = litval(k)
+        # a literal that str() cannot write (an integer beyond the digit limit) is not usable as a literal: the left
+        # side is then read as a path like any other non-literal
+        lit = z3.And(is_literal(k), z3.Or(V.is_str(lv), str_ok(lv)))
         return [('bool', z3.Or(out.value == TRUE, out.value == FALSE)),
-                ('missing-target-key-denies', z3.Implies(z3.Not(fmt_ok(m, tm)), out.value == FALSE)),
+                ('missing-target-key-denies', z3.Implies(z3.Not(filled), out.value == FALSE)),
                 ('literal-left-side-compares-its-string-form',
-                 z3.Implies(z3.And(fmt_ok(m, tm), is_literal(k)),
-                            (out.value == TRUE) == (rhs == z3.If(V.is_str(litval(k)), V.s(litval(k)), pystr(litval(k)))))),
+                 z3.Implies(z3.And(filled, lit),
+                            (out.value == TRUE) == (rhs == z3.If(V.is_str(lv), V.s(lv), pystr(lv))))),
                 ('path-left-side-walks-the-credentials',
-                 z3.Implies(z3.And(fmt_ok(m, tm), z3.Not(is_literal(k))),
+                 z3.Implies(z3.And(filled, z3.Not(lit)),
                             (out.value == TRUE) == walk(eng.val(st, c), segs, rhs)))]
     reg.add(Contract('_checks:GenericCheck.__call__', pre=gen_pre, post=gen_post, defs=eval_defs,
                      axioms=ev_axioms,
